@@ -47,7 +47,7 @@ func ops() []op {
 			out = append(out, op{kind: "cstyle", cs: cs, col: col})
 		}
 	}
-	out = append(out, op{kind: "title"}, op{kind: "showcursor"}, op{kind: "hidecursor"}, op{kind: "draw"}, op{kind: "suspend"}, op{kind: "resume"}, op{kind: "fini"})
+	out = append(out, op{kind: "title"}, op{kind: "hostiletitle"}, op{kind: "showcursor"}, op{kind: "hidecursor"}, op{kind: "draw"}, op{kind: "suspend"}, op{kind: "resume"}, op{kind: "fini"})
 	return out
 }
 
@@ -344,6 +344,12 @@ func (s *sys) Apply(i int) (sig, desc string) {
 	case "title":
 		s.s.SetTitle("t")
 		s.m.title = "t"
+	case "hostiletitle":
+		// a title that came from a file name or a web page: whatever the terminal is told to
+		// show, the text must not end the title sequence and switch a mode on that nobody
+		// will switch off again (DECSCNM here)
+		s.s.SetTitle("t\a\x1b[?5h")
+		s.m.title = ""
 	case "showcursor":
 		s.s.ShowCursor(0, 0)
 	case "hidecursor":
